@@ -13,6 +13,7 @@ import (
 
 	"verif/harness/chain"
 	"verif/harness/h"
+	_ "verif/harness/warm"
 	"verif/harness/pol"
 	"verif/harness/sel"
 	"verif/harness/val"
